@@ -104,7 +104,16 @@ struct Inner<C> {
 
 struct PublishInfo {
     inflight: HashSet<num::NonZeroU16>,
+    /// ids held by SUBSCRIBE/UNSUBSCRIBE, those do not count against Receive Maximum
+    inflight_ctl: HashSet<num::NonZeroU16>,
     aliases: HashMap<num::NonZeroU16, ByteString>,
+}
+
+impl PublishInfo {
+    /// Reserve id of SUBSCRIBE/UNSUBSCRIBE packet, `false` if the id is in use
+    fn insert_ctl(&mut self, id: num::NonZeroU16) -> bool {
+        !self.inflight.contains(&id) && self.inflight_ctl.insert(id)
+    }
 }
 
 impl<T, C, E> Dispatcher<T, C, E>
@@ -129,6 +138,7 @@ where
                 info: RefCell::new(PublishInfo {
                     aliases: HashMap::default(),
                     inflight: HashSet::default(),
+                    inflight_ctl: HashSet::default(),
                 }),
             }),
         }
@@ -229,7 +239,7 @@ where
                         }
 
                         // check for duplicated packet id
-                        if !inner.inflight.insert(pid) {
+                        if inner.inflight_ctl.contains(&pid) || !inner.inflight.insert(pid) {
                             let _ = self.inner.sink.encode_packet(codec::Packet::PublishAck(
                                 codec::PublishAck {
                                     packet_id: pid,
@@ -328,7 +338,9 @@ where
             Decoded::Packet(Packet::PublishRelease(ack), size) => {
                 if self.inner.info.borrow().inflight.contains(&ack.packet_id) {
                     let id = ack.packet_id;
-                    self.inner.control_pkt(ProtocolMessage::pubrel(ack, size), id.get()).await
+                    self.inner
+                        .control_pkt(ProtocolMessage::pubrel(ack, size), id.get(), false)
+                        .await
                 } else {
                     Ok(Some(Encoded::Packet(codec::Packet::PublishComplete(
                         codec::PublishAck2 {
@@ -380,7 +392,7 @@ where
                         self.tag()
                     );
                     Err(SpecViolation::Connack_3_2_2_3_12.into())
-                } else if !self.inner.info.borrow_mut().inflight.insert(pkt.packet_id) {
+                } else if !self.inner.info.borrow_mut().insert_ctl(pkt.packet_id) {
                     // duplicated packet id
                     let _ = self.inner.sink.encode_packet(codec::Packet::SubscribeAck(
                         codec::SubscribeAck {
@@ -398,7 +410,7 @@ where
                 } else {
                     let id = pkt.packet_id;
                     self.inner
-                        .control_pkt(ProtocolMessage::subscribe(pkt, size), id.get())
+                        .control_pkt(ProtocolMessage::subscribe(pkt, size), id.get(), true)
                         .await
                 }
             }
@@ -407,7 +419,7 @@ where
                     Ok(None)
                 } else if pkt.topic_filters.iter().any(|tf| !crate::topic::is_valid(tf)) {
                     Err(SpecViolation::Subs_4_7_1.into())
-                } else if !self.inner.info.borrow_mut().inflight.insert(pkt.packet_id) {
+                } else if !self.inner.info.borrow_mut().insert_ctl(pkt.packet_id) {
                     // duplicated packet id
                     let _ = self.inner.sink.encode_packet(codec::Packet::UnsubscribeAck(
                         codec::UnsubscribeAck {
@@ -425,7 +437,7 @@ where
                 } else {
                     let id = pkt.packet_id;
                     self.inner
-                        .control_pkt(ProtocolMessage::unsubscribe(pkt, size), id.get())
+                        .control_pkt(ProtocolMessage::unsubscribe(pkt, size), id.get(), true)
                         .await
                 }
             }
@@ -442,13 +454,14 @@ impl<C> Inner<C> {
     where
         C: Service<ProtocolMessage, Response = ProtocolMessageAck, Error = DispatcherError<E>>,
     {
-        self.control_pkt(pkt, 0).await
+        self.control_pkt(pkt, 0, false).await
     }
 
     async fn control_pkt<E>(
         &self,
         pkt: ProtocolMessage,
         packet_id: u16,
+        ctl: bool,
     ) -> Result<Option<Encoded>, DispatcherError<E>>
     where
         C: Service<ProtocolMessage, Response = ProtocolMessageAck, Error = DispatcherError<E>>,
@@ -456,7 +469,12 @@ impl<C> Inner<C> {
         let result = match self.control.call(pkt).await {
             Ok(result) => {
                 if let Some(id) = num::NonZeroU16::new(packet_id) {
-                    self.info.borrow_mut().inflight.remove(&id);
+                    let mut info = self.info.borrow_mut();
+                    if ctl {
+                        info.inflight_ctl.remove(&id);
+                    } else {
+                        info.inflight.remove(&id);
+                    }
                 }
                 result
             }
